@@ -906,7 +906,12 @@ FormatterToXML::accumDefaultEscape(
             {
                 if(ch < 0x20 )
                 {
-                    if(m_isXML1_1)
+                    // In XML 1.0, the only characters below 0x20 are
+                    // the white space characters.
+                    if(m_isXML1_1 ||
+                       XalanUnicode::charHTab == ch ||
+                       XalanUnicode::charLF == ch ||
+                       XalanUnicode::charCR == ch)
                     {
                         writeNumberedEntityReference(ch);
                     }
